@@ -170,8 +170,27 @@ impl C17 {
             w.restore(&base);
             // reach the combination either in one message or field by field in a random order
             let mut okt = true;
-            if self.rng.gen_bool(0.5) {
+            let how = self.rng.gen_range(0..3);
+            if how == 0 {
                 okt &= w.apply(&toggle_op(&owner, &tid, Some(sw), Some(dp), Some(wd))).is_ok();
+            } else if how == 1 {
+                // the same message also restates other configuration values (unchanged)
+                let cfg: Result<pm::Config, String> = w.query(&w.pm, &pm::QueryMsg::Config {});
+                let mut op = toggle_op(&owner, &tid, Some(sw), Some(dp), Some(wd));
+                if let (Ok(cfg), Op::Pm { msg: pm::ExecuteMsg::UpdateConfig { fee_collector_addr, farm_manager_addr, pool_creation_fee, .. }, .. }) = (cfg, &mut op) {
+                    let bits = self.rng.gen_range(1..8u8);
+                    if bits & 1 != 0 {
+                        *pool_creation_fee = Some(cfg.pool_creation_fee.clone());
+                    }
+                    if bits & 2 != 0 {
+                        *fee_collector_addr = Some(cfg.fee_collector_addr.to_string());
+                    }
+                    if bits & 4 != 0 {
+                        *farm_manager_addr = Some(cfg.farm_manager_addr.to_string());
+                    }
+                    rep.count("switched_pool", "toggles_sent_together_with_other_config_fields");
+                }
+                okt &= w.apply(&op).is_ok();
             } else {
                 let mut order = vec![0, 1, 2];
                 order.shuffle(&mut self.rng);
